@@ -16,7 +16,9 @@ META = {
             "resample: _resample vs the model on dyadic values (exact). resampler suites: one case = (source geometry, target area, "
             "neighbours, data kind/dtype/ndim, chunking) through NumpyBilinearResampler and XArrayBilinearResampler with constant, "
             "affine-in-target-coordinates and random fields: range, constant, affine exactness, the four chosen pixels lie in the four "
-            "quadrants, value == weights . data, numpy == xarray for all chunkings. Non-trivial: at least one location with a value "
+            "quadrants, value == weights . data, numpy == xarray for all chunkings; further fields: a constant of any sign / magnitude (-1e13..1e13) and "
+            "plateaus (levels), float32 or float64; further sources: strips of 65600..70000 x 3..6 pixels (areas lying either way, swaths) with small targets "
+            "before / across / beyond line 65536 in the same or another CRS. Non-trivial: at least one location with a value "
             "and one without, or a non-rectangular quadrilateral. Distinct = distinct canonical input.",
     "assumptions": ["np.sqrt is a parameter of the model (exact square root assumed in the theorems; 18-digit rational root in the driver)",
                     "float rounding: fractional distances compared at 1e-6, affine reproduction at 1e-6 of the data range",
@@ -327,6 +329,84 @@ def _geoms(ctx):
     return out
 
 
+EXTRA_KINDS = ("constant-any", "levels")
+
+
+def _strip_geoms(ctx, rng):
+    """Very long, narrow sources (a concatenated orbit, a long transect): more than 65536 rows (or columns) and a handful of columns (rows);
+    small targets placed before, across and beyond line 65536, in the source's CRS or another one. Same tuple as _geoms plus options:
+    the data chunkings are scaled to the strip (a 7 x 11 chunking of 200000 pixels would only measure dask)."""
+    import pyproj
+    from pyresample.geometry import AreaDefinition, SwathDefinition
+    out = []
+    kinds = ["tall", "wide"] if ctx.quick else ["tall", "wide", "tall-swath", "tall", "wide", "tall-swath"]
+    wheres = ["beyond", "across"] if ctx.quick else ["beyond", "across", "beyond", "before", "beyond", "beyond"]
+    if rng.random() < 0.5:
+        wheres = wheres[::-1]
+    if ctx.quick and rng.random() < 0.4:
+        kinds[0] = "tall-swath"
+    for k, (kind, where) in enumerate(zip(kinds, wheres)):
+        n_long = rng.randint(65600, 70000)
+        n_short = rng.randint(3, 6)
+        tall = kind.startswith("tall")
+        res = rng.choice([100.0, 200.0, 250.0]) if tall else rng.choice([200.0, 400.0, 500.0])
+        eqc = {"proj": "eqc", "lon_0": rng.choice([0, 0, 25, -100]), "ellps": "WGS84"}
+        c_long = rng.uniform(-2e5, 2e5)          # centre of the strip along its length / across it (metres from the equator / central meridian)
+        c_short = rng.uniform(-5e5, 5e5)
+        half_l, half_s = n_long * res / 2, n_short * res / 2
+        if tall:
+            ext = (c_short - half_s, c_long - half_l, c_short + half_s, c_long + half_l)
+            area = AreaDefinition(f"strip{k}", "s", "s", eqc, n_short, n_long, ext)
+        else:
+            ext = (c_long - half_l, c_short - half_s, c_long + half_l, c_short + half_s)
+            area = AreaDefinition(f"strip{k}", "s", "s", eqc, n_long, n_short, ext)
+        # the line (tall) / column (wide) the target is centred on
+        if where == "beyond":
+            line = rng.randint(65536 + 8, n_long - 8)
+        elif where == "across":
+            line = 65536 + rng.randint(-2, 2)
+        else:
+            line = rng.randint(8, 65536 - 8)
+        along = (ext[3] - (line + 0.5) * res) if tall else (ext[0] + (line + 0.5) * res)
+        xc, yc = (c_short, along) if tall else (along, c_short)
+        to_ll = pyproj.Transformer.from_crs(area.crs, area.crs.geodetic_crs, always_xy=True)
+        lon_c, lat_c = to_ll.transform(xc, yc)
+        tproj_kind = rng.choice(["same", "same", "merc", "laea"])
+        if tproj_kind == "same":
+            tproj = eqc
+        elif tproj_kind == "merc":
+            tproj = {"proj": "merc", "lon_0": eqc["lon_0"], "ellps": "WGS84"}
+        else:
+            tproj = {"proj": "laea", "lat_0": round(lat_c, 1), "lon_0": round(lon_c, 1), "ellps": "WGS84"}
+        fwd = pyproj.Transformer.from_crs(pyproj.CRS.from_user_input(tproj).geodetic_crs, pyproj.CRS.from_user_input(tproj), always_xy=True)
+        txc, tyc = fwd.transform(lon_c, lat_c)
+        lon_n, lat_n = to_ll.transform(xc + res, yc + res)
+        txn, tyn = fwd.transform(lon_n, lat_n)
+        px, py = abs(txn - txc), abs(tyn - tyc)                      # one source pixel, in target coordinates
+        # the target is a little wider than the strip (some locations have no surrounding pixels) and a few lines long
+        n_across, n_along = rng.randint(5, 8), rng.randint(5, 9)
+        f_across = (n_short - 1 + rng.choice([-0.6, 0.4, 1.5])) / n_across
+        f_along = rng.choice([0.45, 0.8, 1.0, 1.9])
+        if tall:
+            tw, th, dx, dy = n_across, n_along, px * f_across, py * f_along
+        else:
+            tw, th, dx, dy = n_along, n_across, px * f_along, py * f_across
+        ox, oy = rng.uniform(-0.4, 0.4) * dx, rng.uniform(-0.4, 0.4) * dy
+        tgt = AreaDefinition(f"strip_t{k}", "t", "t", tproj, tw, th, (txc + ox - tw * dx / 2, tyc + oy - th * dy / 2, txc + ox + tw * dx / 2, tyc + oy + th * dy / 2))
+        src = area
+        if kind == "tall-swath":
+            lons, lats = area.get_lonlats()
+            rr = np.arange(n_long)[:, None]
+            src = SwathDefinition(np.asarray(lons) + 2e-4 * np.sin(rr / 4000.0), np.asarray(lats) + 1e-4 * np.cos(rr / 2500.0))
+        big = rng.choice([9973, 16384, 30000])
+        chunkings = [(-1, -1), (big, 2) if tall else (2, big)]
+        fields = ("constant", "affine") if ctx.quick else ("constant", "affine", "random", "offset", "neg-constant", "neg-levels")
+        out.append((f"strip-{kind}-{where}-{tproj_kind}", src, tgt, 6.0 * res, rng.choice([16, 32]),
+                    {"chunkings": chunkings, "geo_chunks": [4096] if ctx.quick else [4096, 30000], "fields": fields, "joint_chunks": chunkings[1],
+                     "describe": {"strip": kind, "long_side": n_long, "short_side": n_short, "pixel_size": res, "target_centred_on_line": line, "where": where}}))
+    return out
+
+
 def _src_xy_in_target(src, tgt):
     """source pixel coordinates in the target projection (the coordinates an 'affine field' is a function of)"""
     import pyproj
@@ -359,8 +439,12 @@ def suite_resamplers(ctx):
     from pyresample.bilinear import NumpyBilinearResampler, XArrayBilinearResampler
     from pyresample.bilinear import _base as B
     import pyresample.bilinear.xarr as X
+    import random
     rng = ctx.rng
-    for label, src, tgt, radius, neighbours in _geoms(ctx):
+    rng2 = random.Random(f"C06-extra-{ctx.seed}")        # families added later draw from their own stream
+    geoms = [g + ({},) for g in _geoms(ctx)] + _strip_geoms(ctx, rng2)
+    for label, src, tgt, radius, neighbours, opts in geoms:
+        wanted = opts.get("fields")
         sx, sy, sok = _src_xy_in_target(src, tgt)
         tx, ty = tgt.get_proj_coords()
         span = max(np.nanmax(sx) - np.nanmin(sx), np.nanmax(sy) - np.nanmin(sy))
@@ -370,11 +454,29 @@ def suite_resamplers(ctx):
         fields = {
             "constant": np.full(shape, 7.25),
             "affine": np.where(sok, f_aff(np.where(sok, sx, 0), np.where(sok, sy, 0)), 0.0),
-            "random": np.array([[rng.uniform(-5, 5) for _ in range(shape[1])] for _ in range(shape[0])]),
+            "random": np.array([[rng.uniform(-5, 5) for _ in range(shape[1])] for _ in range(shape[0])]) if wanted is None or "random" in wanted else None,
             # values that need more than 24 significant bits (epoch seconds, large counts)
             "offset": np.where(sok, f_aff(np.where(sok, sx, 0), np.where(sok, sy, 0)), 0.0) + 1.7e9,
         }
+        # constant fields and plateaus (a classification, a clipped quantity) of any sign and magnitude, float32 and float64: results that sit
+        # exactly on the minimum / maximum of the data - negative minimum, negative maximum, values whose float32 / float64 spacing exceeds 1e-6
+        c_any = rng2.choice([-0.5, -2.0, -40.0, -273.15, -1234.5, -1e4, -1e13, 16.1, 300.0, 1e4, 1e9, 1e13])
+        levels = rng2.choice([[-2.0, -1.0], [-300.0, -40.0, -2.0], [-1.0, 0.0, 1.0], [-40.0, 20.0], [-0.25, -0.125], [-1e4, -5e3, -1.0],
+                              [1.0, 2.0], [250.0, 300.0], [1e4, 2e4], [1e9, 1e9 + 4096], [1e13, 2e13], [-1e13, 1e13]])
+        dtype_extra = {"constant-any": rng2.choice([np.float32, np.float64]), "levels": rng2.choice([np.float32, np.float64])}
+        br, bc = rng2.randint(3, 12), rng2.randint(3, 12)
+        if opts.get("describe"):
+            br, bc = br * 1000, bc * 1000
+        rr_, cc_ = np.meshgrid(np.arange(shape[0]), np.arange(shape[1]), indexing="ij")
+        fields["constant-any"] = np.full(shape, c_any)
+        fields["levels"] = np.asarray(levels)[((rr_ // br) + (cc_ // bc)) % len(levels)]
+        if wanted is not None:
+            fields = {k: v for k, v in fields.items() if k in wanted}
         inp0 = {"pair": label, "source": _desc(src), "target": _desc(tgt), "radius": radius, "neighbours": neighbours}
+        if opts.get("describe"):
+            inp0.update(opts["describe"])
+        if "constant-any" in fields or "levels" in fields:
+            inp0["constant_any"], inp0["levels"], inp0["level_blocks"] = c_any, levels, [br, bc]
         reduce_data = rng.choice([False, False, True])
         inp0["reduce_data"] = reduce_data
         # spy: the corner coordinates the library hands to its solver
@@ -489,6 +591,8 @@ def suite_resamplers(ctx):
             lo, hi = np.nanmin(data_np), np.nanmax(data_np)
             got = ~np.isnan(res)
             eps = 1e-6 * (1 + abs(hi - lo))
+            if kind in EXTRA_KINDS:
+                eps += 1e-12 * max(abs(lo), abs(hi))          # magnitudes up to 1e13: a convex combination is exact to a few ulps of the values
             rng_bad = got & ((res < lo - eps) | (res > hi + eps))
             if rng_bad.any():
                 idx = tuple(map(int, np.argwhere(rng_bad)[0]))
@@ -498,6 +602,12 @@ def suite_resamplers(ctx):
                 if bad.any():
                     idx = tuple(map(int, np.argwhere(bad)[0]))
                     ctx.fail(site, f"constant field not reproduced: {res[idx]} at {idx}", inp, None, tags={"cause": "constant"}, size=n_out)
+            if kind == "constant-any":
+                cval = data_np[:, 0, 0][:, None, None]             # per band, as stored in the data's dtype
+                bad = got & (np.abs(res - cval) > 1e-12 * np.maximum(1.0, np.abs(cval)))
+                if bad.any():
+                    idx = tuple(map(int, np.argwhere(bad)[0]))
+                    ctx.fail(site, f"constant field {float(cval[idx[0], 0, 0])} not reproduced: {res[idx]} at {idx}", inp, None, tags={"cause": "constant", "field": kind}, size=n_out)
             if kind == "affine":
                 exp = f_aff(tx_, ty_)[None, :, :] * (1 + np.arange(res.shape[0]))[:, None, None]
                 bad = got & (np.abs(res - exp) > 1e-6 * 3.0 * (1 + np.arange(res.shape[0]))[:, None, None])
@@ -516,10 +626,18 @@ def suite_resamplers(ctx):
                              {"n": int(bad_new.sum())}, tags={"cause": "affine", "field": kind}, size=n_out)
 
         results_np = {}
+        extra_ndim = rng2.choice([2, 3])
         for kind, base in fields.items():
             for ndim in (2, 3):
-                nb = rng.choice([2, 3]) if ndim == 3 else 1
+                if kind in EXTRA_KINDS:
+                    if ctx.quick and ndim != extra_ndim:
+                        continue
+                    nb = rng2.choice([2, 3]) if ndim == 3 else 1
+                else:
+                    nb = rng.choice([2, 3]) if ndim == 3 else 1
                 dtype = rng.choice([np.float64, np.float32]) if kind == "random" else np.float64
+                if kind in EXTRA_KINDS:
+                    dtype = dtype_extra[kind]
                 if kind == "random" and rng.random() < 0.3:
                     dtype = np.uint8
                 stack = np.stack([base * (k + 1) for k in range(nb)])               # (nb, H, W)
@@ -563,8 +681,9 @@ def suite_resamplers(ctx):
             with warnings.catch_warnings(), np.errstate(all="ignore"), dask.config.set(scheduler="synchronous"):
                 warnings.simplefilter("ignore")
                 xrs = XArrayBilinearResampler(src, tgt, radius, neighbours=neighbours, reduce_data=inp0["reduce_data"])
-                la = xrs.resample(xr.DataArray(da.from_array(st_a[0], chunks=(7, 11)), dims=("y", "x")), fill_value=np.nan)
-                lb = xrs.resample(xr.DataArray(da.from_array(st_b[0], chunks=(7, 11)), dims=("y", "x")), fill_value=np.nan)
+                jch = opts.get("joint_chunks", (7, 11))
+                la = xrs.resample(xr.DataArray(da.from_array(st_a[0], chunks=jch), dims=("y", "x")), fill_value=np.nan)
+                lb = xrs.resample(xr.DataArray(da.from_array(st_b[0], chunks=jch), dims=("y", "x")), fill_value=np.nan)
                 ja, jb = dask.compute(la.data, lb.data)
             ctx.case("resampler-joint", (label,), nontrivial=True)
             ctx.count("res.xarray.joint_compute")
@@ -579,13 +698,18 @@ def suite_resamplers(ctx):
         # xarray / dask resampler: every chunking gives the numpy result
         chunkings = [(-1, -1), (7, 11), (5, 5)] if ctx.quick else [(-1, -1), (7, 11), (5, 5), (13, 4), (1, 9)]
         geo_chunks = [4096, 9] if ctx.quick else [4096, 9, 16]
+        chunkings, geo_chunks = opts.get("chunkings", chunkings), opts.get("geo_chunks", geo_chunks)
         for (kind, ndim), (stack, ref3, inp, dtype) in results_np.items():
             if dtype is np.uint8:
                 continue
             nb = stack.shape[0]
+            # quick tier, fields added later: one data chunking (drawn per field) at the default geolocation chunking
+            extra_ch = rng2.choice(chunkings) if kind in EXTRA_KINDS else None
             for gch in geo_chunks:
                 for ch in chunkings:
                     if gch != 4096 and ch != chunkings[1]:
+                        continue
+                    if kind in EXTRA_KINDS and ctx.quick and (gch != 4096 or ch != extra_ch):
                         continue
                     X.CHUNK_SIZE = gch
                     try:
